@@ -13,7 +13,7 @@ import vlib
 HERE = os.path.dirname(os.path.abspath(__file__))
 ROOT = os.path.dirname(os.path.dirname(HERE))
 HARNESS = os.path.join(ROOT, "tools", "harness", "drv_lll.c")
-LOCAL_KNOWN = os.path.join(ROOT, "tools", "claims", "C16.known.json")
+CORPUS = os.path.join(ROOT, "corpus", "C16")
 
 PRIMES = {1: 5 * 2**248 - 1, 3: 65 * 2**376 - 1, 5: 27 * 2**500 - 1}
 RESP = {1: 128, 3: 194, 5: 255}
@@ -292,12 +292,10 @@ def check_args(delta, eta):
 
 
 # ---------------------------------------------------------------------------------- classification helpers
-SLACK_MIN = 128     # precision slack (bits) above which the float precision of the routine is adequate (measured)
-
-
 def precision_slack(q, lat):
-    """2*logdet (the mpf precision chosen by quat_lattice_lll) minus what the norm form needs, roughly
-    bitsize(q) + 2*max-bitsize.  Below SLACK_MIN the routine is precision-starved (known finding)."""
+    """coverage statistic only: 2*logdet (the mpf precision the routine chose BEFORE repo commit ba3b4ab) minus roughly
+    what the norm form needs, bitsize(q) + 2*max-bitsize.  Below ~128 the old code was precision-starved and returned
+    unreduced bases; the repaired precision is 2*logdet + 4*bitsize(q) + 128 and NO input is exempt any more."""
     logdet = sum(max(max(abs(x).bit_length(), 1) for x in row) for row in lat)
     mb = max(abs(x).bit_length() for row in lat for x in row)
     return 2 * logdet - (q.bit_length() + 2 * mb)
@@ -326,13 +324,13 @@ def lll_cases(ctx, side, rng):
         cases.append(("hnf-smallq", l, rng.choice([1, 2, 3, 7, 103, (1 << 61) - 1]), 1, gen_hnf(rng, 1 + rng.below(1000))))
     for _ in range(60 * T):
         l = lv()
-        lo = (PRIMES[l].bit_length() + SLACK_MIN) // 6 + 8
+        lo = (PRIMES[l].bit_length() + 128) // 6 + 8
         cases.append(("dense", l, PRIMES[l], 1, gen_dense(rng, lo + rng.below(250))))
     for _ in range(80 * T):
         l = lv()
         k = rng.below(4)
         cases.append(("skew%d" % k, l, PRIMES[l], 1, gen_skewed(rng, k, 8 + rng.below(500))))
-    for _ in range(30 * T):      # deliberately precision-starved (small entries, large q): known-finding regime
+    for _ in range(40 * T):      # small entries, large q: the regime where the precision rule before ba3b4ab failed
         l = lv()
         k = rng.below(5)
         m = gen_dense(rng, 1 + rng.below(60)) if k == 4 else gen_skewed(rng, k, 8 + rng.below(120))
@@ -386,24 +384,29 @@ def stage_lll(ctx, side):
         o = outs[i]
         w = o.split()
         slack = precision_slack(q, lat)
-        regime = "adequate" if slack >= SLACK_MIN else "starved"
         hist(ctx, "lll_cases_by_class", tag)
         hist(ctx, "lll_cases_by_level", l)
-        hist(ctx, "lll_precision_slack_bits", bucket(min(slack, 4096), 256))
+        hist(ctx, "lll_pre_fix_precision_slack_bits(<128 = formerly starved)", bucket(max(min(slack, 4096), -1024), 256))
         hist(ctx, "lll_det_bits", bucket(abs(det_int(lat)).bit_length(), 128))
         ctx.case("lll:%s:%d:%d" % (tag, l, i))
         replay = dict(op=lines[i], level=l, how="echo '<op>' | drv_lll_<level>  (tools/harness/drv_lll.c)", c_output=o[:2000],
                       precision_slack_bits=slack)
+        if det_int(lat) == 0:
+            # a generator of this stage happened to produce a singular matrix (tiny entries): the property demands -1
+            hist(ctx, "lll_stage_singular_inputs", w[0])
+            if w[0] != "-1":
+                ctx.violation("lll:rank-deficient:" + ("ret0" if w[0] == "0" else w[0]),
+                              "quat_lattice_lll: %s on a rank-deficient input (class %s)" % (o[:40], tag), replay)
+                nviol += 1
+            continue
         if w[0] in ("crash", "timeout") or w[0].startswith("<no"):
-            key = "lll:%s:%s" % (regime, w[0]) if regime == "adequate" else "lll:precision-ignores-q:not-reduced"
-            ctx.violation(key, "quat_lattice_lll %s on a full-rank lattice (class %s)" % (o[:40], tag), replay)
+            ctx.violation("lll:" + w[0], "quat_lattice_lll %s on a full-rank lattice (class %s)" % (o[:40], tag), replay)
             nviol += 1
             continue
         ret = int(w[0])
         red = parse_mat(w[1:17]) if ret == 0 and len(w) >= 17 else None
         if ret != 0:
-            key = "lll:adequate:full-rank-rejected" if regime == "adequate" else "lll:precision-ignores-q:not-reduced"
-            ctx.violation(key, "quat_lattice_lll returned %d on a full-rank lattice (class %s)" % (ret, tag), replay)
+            ctx.violation("lll:full-rank-rejected", "quat_lattice_lll returned %d on a full-rank lattice (class %s)" % (ret, tag), replay)
             nviol += 1
             continue
         if not same_lattice_cols(lat, red):
@@ -421,13 +424,8 @@ def stage_lll(ctx, side):
             else:
                 replay["max_abs_mu"] = float(mx) if mx is not None else None
                 replay["min_lovasz_ratio"] = float(lov) if lov is not None else None
-                if regime == "adequate":
-                    ctx.violation("lll:not-reduced:" + reason, "quat_lattice_lll output is not (%.2f, %.2f)-reduced: %s "
-                                  "(class %s, exact rational Gram-Schmidt)" % (DELTA_CHK, ETA_CHK, reason, tag), replay)
-                else:
-                    ctx.violation("lll:precision-ignores-q:not-reduced",
-                                  "quat_lattice_lll output not reduced when 2*logdet is small against bitsize(q): "
-                                  "float precision ignores q", replay)
+                ctx.violation("lll:not-reduced:" + reason, "quat_lattice_lll output is not (%.2f, %.2f)-reduced: %s "
+                              "(class %s, exact rational Gram-Schmidt)" % (DELTA_CHK, ETA_CHK, reason, tag), replay)
                 nviol += 1
         lean_lines.append("lll.check %s %s %s %s" % (check_args(DELTA_CHK, ETA_CHK), hx(q), mat_hex(lat), mat_hex(red)))
         lean_idx.append((i, verdict))
@@ -440,18 +438,33 @@ def stage_lll(ctx, side):
         if (r == "0") != verdict:
             dis.append(dict(op=lean_lines[j][:300], lean=r, oracle=verdict, case=lines[i][:300]))
     nnew = len([v for v in ctx.violations if v["key"].startswith("lll:")])
-    ctx.obligation("certificate check: Lean lllCheck accepts every C output of quat_lattice_lll (%d outputs; known findings excepted)"
+    ctx.obligation("certificate check: Lean lllCheck accepts every C output of quat_lattice_lll (%d outputs)"
                    % len(lean_lines), nnew == 0, "%d outputs rejected, %d new violation keys" % (nviol, nnew))
     ctx.obligation("Lean lllCheck agrees with the independent exact-rational oracle (%d outputs)" % len(lean_lines), not dis,
                    json.dumps(dis[:3])[:600])
     if dis:
         ctx.violation("model:lllCheck-vs-oracle", "Lean checker and python oracle disagree on a C output", dict(disagreements=dis[:5]),
                       found=False)
+    guard_correspondence(ctx, side, [(lines[i], outs[i]) for i in range(len(cases))], "full-rank stage")
     ctx.coverage["lll_outputs_checked"] = len(lean_lines)
     ctx.coverage["lll_outputs_meeting_exact_implemented_constants(delta=double(0.99),eta=1/2)"] = strict_ok
     if margins:
         ctx.coverage["lll_worst_abs_mu"] = max(m[0] for m in margins)
         ctx.coverage["lll_worst_lovasz_ratio"] = min(m[1] for m in margins)
+
+
+def guard_correspondence(ctx, side, pairs, name):
+    """the entry guard of the repaired routine (Lean `lllGuard` = exact determinant test) against the C return value:
+    ret = -1 iff the guard fires"""
+    pairs = [(l, o) for l, o in pairs if o.split() and o.split()[0] in ("0", "-1")]
+    gl = ["lll.guard " + " ".join(l.split()[3:19]) for l, _ in pairs]
+    go = side.lean(gl) if gl else []
+    dis = [dict(op=l[:300], impl_ret=o.split()[0], model_guard=g) for (l, o), g in zip(pairs, go)
+           if (o.split()[0] == "-1") != (g == "-1")]
+    ctx.evaluations += len(gl)
+    ctx.obligation("correspondence entry rank test (lllGuard) vs C return value, %s (%d calls)" % (name, len(gl)), not dis,
+                   json.dumps(dis[:3])[:600])
+    return dis
 
 
 # ---------------------------------------------------------------------------------- stage: rank-deficient inputs
@@ -511,20 +524,24 @@ def stage_rank(ctx, side):
             cls = "reported(-1)"
         elif w[0] == "0":
             cls = "returned-0"
-            ctx.violation("lll:rank-deficient:ret0", "quat_lattice_lll returns 0 (success) on a rank-deficient input: the float "
-                          "B[k] is tiny but not exactly 0.0", replay)
+            ctx.violation("lll:rank-deficient:ret0", "quat_lattice_lll returns 0 (success) on a rank-deficient input: the "
+                          "exact rank test at entry (repo commit ba3b4ab) is missing or wrong", replay)
         elif w[0] == "crash":
             cls = "crash-signal-" + (w[1] if len(w) > 1 else "?")
             zero_first = all(lat[r][0] == 0 for r in range(4))
             key = "lll:rank-deficient:zero-first-column:sigfpe" if zero_first and w[1:] == ["8"] else "lll:rank-deficient:crash"
             ctx.violation(key, "quat_lattice_lll crashes (signal %s) on a rank-deficient input%s" %
-                          (w[1] if len(w) > 1 else "?", " whose first column is zero (B[0] = 0 is never tested; mpf_div by zero)" if zero_first else ""), replay)
+                          (w[1] if len(w) > 1 else "?", " whose first column is zero (float division by B[0] = 0: the exact rank test at entry is missing)" if zero_first else ""), replay)
         else:
             cls = w[0]
             ctx.violation("lll:rank-deficient:" + w[0], "quat_lattice_lll: %s on a rank-deficient input" % o[:60], replay)
         stats[cls] = stats.get(cls, 0) + 1
     ctx.coverage["rank_deficient_inputs"] = stats
-    ctx.obligation("rank-deficient inputs classified (%d)" % len(cases), True, json.dumps(stats))
+    bad = sum(v for k, v in stats.items() if k != "reported(-1)")
+    ctx.obligation("every rank-deficient input is reported with -1 (%d inputs, forked under alarm)" % len(cases), bad == 0,
+                   json.dumps(stats))
+    guard_correspondence(ctx, side, [("lll.run %s 1 %s" % (hx(q), mat_hex(lat)), res[i]) for i, (tag, l, q, lat) in enumerate(cases)
+                                     if res.get(i, "skipped") != "skipped"], "singular stage")
 
 
 # ---------------------------------------------------------------------------------- stage: dimension-2 routines
@@ -809,12 +826,41 @@ def stage_resp(ctx, side):
 
 
 # ---------------------------------------------------------------------------------- entry point
-def load_local_known(ctx):
-    if os.path.exists(LOCAL_KNOWN):
-        have = {k.get("key") for k in ctx.known}
-        for k in json.load(open(LOCAL_KNOWN)).get("findings", []):
-            if k.get("property") == "C16" and k.get("key") not in have:
-                ctx.known.append(k)
+def stage_corpus(ctx, side):
+    """corpus/C16/*.json: replays of the recorded (now fixed) findings and of past failures; run FIRST on every run.
+    Each file: {"name", "op": "lll.run q denom B(16)", "level", "what", "fixed_by"}.  The op is run forked on the real
+    code and judged by the property's own oracle (+ the Lean checker); a reverted fix gives a VIOLATION with this replay."""
+    if not os.path.isdir(CORPUS):
+        return
+    files = sorted(f for f in os.listdir(CORPUS) if f.endswith(".json"))
+    n_ok = 0
+    for f in files:
+        e = json.load(open(os.path.join(CORPUS, f)))
+        op, lvl = e["op"], int(e.get("level", 1))
+        out = side.c(lvl, ["! 10 " + op])[0]
+        ctx.case("corpus:" + f)
+        hist(ctx, "corpus_results", out.split()[0] if out.split() else "?")
+        w = op.split()
+        q, lat = unhx(w[1]), parse_mat(w[3:19])
+        ow = out.split()
+        replay = dict(op=op, level=lvl, corpus_file=os.path.join("corpus", "C16", f), recorded_finding=e.get("what", ""),
+                      fixed_by=e.get("fixed_by", ""), c_output=out[:1500], how="echo '! 10 <op>' | drv_lll_<level>")
+        if not ow or ow[0] not in ("0", "-1"):
+            ok, why = False, "no result: %s" % out[:40]
+        else:
+            ret = int(ow[0])
+            red = parse_mat(ow[1:17]) if ret == 0 and len(ow) >= 17 else None
+            ok, why = lll_oracle(q, lat, ret, red)
+            if ok and red is not None:
+                lc = side.lean(["lll.check %s %s %s %s" % (check_args(DELTA_CHK, ETA_CHK), hx(q), mat_hex(lat), mat_hex(red))])[0]
+                if lc != "0":
+                    ok, why = False, "Lean lllCheck rejects the output (code %s)" % lc
+        if ok:
+            n_ok += 1
+        else:
+            ctx.violation("corpus:" + e.get("name", f), "recorded finding is back (%s): %s" % (e.get("what", "")[:120], why), replay)
+    ctx.obligation("corpus of past findings (%d replays) passes on the current tree" % len(files), n_ok == len(files),
+                   "%d/%d" % (n_ok, len(files)))
 
 
 def stages(ctx):
@@ -825,7 +871,7 @@ def stages(ctx):
     t = time.time()
     side.build((1, 3, 5))
     ctx.log("harness built for levels 1,3,5 in %.1fs" % (time.time() - t))
-    for name, fn in (("lll", stage_lll), ("rank", stage_rank), ("dim2", stage_dim2), ("resp", stage_resp)):
+    for name, fn in (("corpus", stage_corpus), ("lll", stage_lll), ("rank", stage_rank), ("dim2", stage_dim2), ("resp", stage_resp)):
         t = time.time()
         fn(ctx, side)
         ctx.log("stage %s done in %.1fs (%d evaluations so far)" % (name, time.time() - t, ctx.evaluations))
@@ -848,7 +894,6 @@ def search(ctx):
 
 
 def run(ctx):
-    load_local_known(ctx)
     ctx.trusted += ["GMP integers (ibz_t) modelled as exact Int; GMP mpf floats NOT modelled (LLL validated per output)",
                     "python exact-rational oracle (fractions) in tools/props/c16.py; C driver tools/harness/drv_lll.c "
                     "(defines randombytes as a seeded SplitMix64 stream)",
